@@ -1,6 +1,6 @@
 #!/bin/sh
-# tools/commit.sh "<message>": commit everything in /verif except the files sub-agents are still editing (C19 / C20)
+# tools/commit.sh "<message>": commit everything in /verif except the files a sub-agent is still editing (C18)
 cd /verif || exit 1
-git add -A -- . ':!spec/CincoSave.tla' ':!spec/MC_CincoSave*' ':!spec/Trace_CincoSave.tla' ':!harness/props/c19.py' \
-    ':!spec/CincoStubs.tla' ':!spec/MC_Stubs*' ':!spec/Trace_Stubs.tla' ':!harness/props/c20.py'
+git add -A -- . ':!spec/CincoInclude.tla' ':!spec/IncludeLab.tla' ':!spec/MC_Include.tla' ':!spec/Trace_Include*' \
+    ':!harness/props/c18.py' ':!harness/props/incworld.py' ':!harness/props/loadfail.py' ':!evidence/C18.json'
 git commit -qm "$1" && git log --oneline | head -1
